@@ -319,7 +319,7 @@ def oracle(ctx, volume=1):
 
 
 def flow_clauses(ctx, g, volume):
-    nconf = (2 if ctx.quick else 6) * volume
+    nconf = (3 if ctx.quick else 6) * volume
     for ci in range(nconf):
         n_rep = int(g.integers(2, 5))
         num_data = [int(g.choice([10, 20])), int(g.choice([50, 100]))]
@@ -330,7 +330,7 @@ def flow_clauses(ctx, g, volume):
                      {"name": "loss-fwse-invcov", "est": "loss", "loss": "fwse", "mode": "inverse_sample_covariance", "para": True},
                      {"name": "loss-eq-only", "est": "loss", "loss": "fwse", "mode": "identity", "para": False, "eq": True, "ineq": False}]
         true = [("state", "z0"), ("state", "a"), ("state", "x1")][ci % 3]
-        n_sample = 2 if (ci % 2 == 0 and not ctx.quick) else 1
+        n_sample = 2 if (ci % 3 == 2 or (ci % 2 == 0 and not ctx.quick)) else 1
         cfg = base_cfg(g, n_rep, num_data, cases, true=true, n_sample=n_sample)
         if ci % 3 == 2:
             cfg["noise"] = {"method": "random_effective_lindbladian",
@@ -348,7 +348,7 @@ def flow_clauses(ctx, g, volume):
         for d in diff_fp(fp0, fingerprint(run_flow(cfg))):
             ctx.violate(f"C15/flow/rerun/{d}", f"the same settings and seeds gave different {d}", rep)
         # (2) different degrees of parallelism at each level
-        counts = [2, 4] if ctx.quick else [2, 3, 4]
+        counts = ([2] if ci % 3 == 2 else [2, 4]) if ctx.quick else [2, 3, 4]
         for level in LEVELS:
             for nj in counts:
                 pm = {level: nj}
